@@ -32,6 +32,17 @@
 //!       callback in either implementation; hosted map runs additionally issue local update / remove /
 //!       clear through the `MapDownlinkHandle` (they must not affect the local state: the reference fold
 //!       ignores them). The commands written back to the link are checked separately, not compared.
+//!   N6  Fault "the output channel fails while a local write is pending" (`HostedScenario::out_fail`, hosted
+//!       side only, legal scripts of a downlink that does not terminate on unlinked): the link peer drops
+//!       the read half of the channel the downlink writes its local operations to, a local write is issued
+//!       afterwards, the write fails (`DownlinkChannelError::WriteFailed`) and the agent reconnects the
+//!       downlink (`connect`) without any lifecycle callback. The peer then serves a fresh session on the
+//!       new connection. Expected: the callbacks made up to the reconnection follow the reference fold of
+//!       the part of the script fed before the fault, nothing is called for the loss itself, and the
+//!       callbacks on the new connection are those of the reference fold of the new session started from
+//!       an EMPTY state (`dltask::reference` / `dltask::check` on a scenario whose script is only that
+//!       session). The client has no such fault: it runs the script up to the fault point and is compared
+//!       with the hosted callbacks made before the reconnection.
 
 pub mod agent;
 pub mod run;
@@ -64,6 +75,26 @@ pub enum LocalOp {
     Upd(i32, i32),
     Rem(i32),
     Clr,
+    /// `ValueDownlinkHandle::set` (only as the write that meets the failed output channel of a value downlink).
+    Set(i32),
+}
+
+/// The output channel of the downlink fails while a local write is pending (N6).
+#[derive(Debug, Clone, Serialize, Deserialize, PartialEq, Eq)]
+pub struct OutFail {
+    /// The link peer drops the read half of the output channel when this many notifications of the base
+    /// script have been written to the link (clamped to the script); the rest of the base script is never sent.
+    pub after_fed: u32,
+    /// true: the fault fires only when everything fed so far has been consumed (the system is idle), so the
+    /// callbacks before the reconnection are exactly those of the fed part; false: it fires as soon as the
+    /// peer gets to the fault point, racing with the notifications still in the channel (which are lost
+    /// with the abandoned connection: only a prefix of the callbacks of the fed part can be demanded).
+    pub settle: bool,
+    /// The local write issued after the fault (the one that finds the channel broken, unless an earlier
+    /// local write of the scenario is still pending and fails first).
+    pub write: LocalOp,
+    /// The session the link peer serves on the connection the agent opens after the write failure.
+    pub second: Vec<N>,
 }
 
 #[derive(Debug, Clone, Serialize, Deserialize, PartialEq, Eq)]
@@ -86,12 +117,112 @@ pub struct HostedScenario {
     /// Polls before the link request is answered.
     pub link_delay: u32,
     pub max_steps: u64,
+    /// Absent in scenarios recorded before the fault existed.
+    #[serde(default, skip_serializing_if = "Option::is_none")]
+    pub out_fail: Option<OutFail>,
+}
+
+impl HostedScenario {
+    /// The output-channel fault and its (clamped) fault point, if it applies to this scenario: only legal
+    /// scripts (the others are explored for "no panic" only, and may make the downlink fail on their own)
+    /// of a downlink that does not terminate on unlinked (a terminating downlink cannot be restarted: the
+    /// agent drops it after a write failure, there is no second session to observe).
+    pub fn out_fail_at(&self) -> Option<(&OutFail, usize)> {
+        match &self.out_fail {
+            Some(of) if self.base.legal && !self.base.terminate_on_unlinked => Some((of, (of.after_fed as usize).min(self.base.script.len()))),
+            _ => None,
+        }
+    }
+
+    /// The base scenario restricted to what is sent before the fault (the whole base scenario without it).
+    pub fn first_part(&self) -> DtScenario {
+        let mut b = self.base.clone();
+        if let Some((_, at)) = self.out_fail_at() {
+            b.script.truncate(at);
+        }
+        b
+    }
+
+    /// The session served after the write failure as a scenario of its own (same configuration, EMPTY start).
+    pub fn second_part(&self) -> Option<DtScenario> {
+        self.out_fail_at().map(|(of, _)| {
+            let mut b = self.base.clone();
+            b.script = of.second.clone();
+            b.local_sets.clear();
+            b
+        })
+    }
+}
+
+/// Drawn from a stream of its own: the other fields of a scenario are those of the same seed without the fault.
+fn generate_out_fail(seed: u64, base: &DtScenario) -> Option<OutFail> {
+    let mut rng = Rng::new(seed).sub("out-fail");
+    if !base.legal || base.terminate_on_unlinked || !rng.chance(1, 3) {
+        return None;
+    }
+    let len = base.script.len() as u64;
+    // Half of the fault points lie after the first `Synced` (the downlink holds synced state, callbacks are
+    // dispatched), the others anywhere: before `Linked`, before `Synced`, after `Unlinked`, at the end.
+    let synced_at = base.script.iter().position(|n| matches!(n, N::Synced)).map(|i| i as u64 + 1);
+    let after_fed = match synced_at {
+        Some(s) if rng.chance(1, 2) => rng.range(s, len),
+        _ => rng.range(0, len),
+    } as u32;
+    let map = base.map;
+    let mut next = 7000;
+    let mut ev = |rng: &mut Rng| -> N {
+        next += 1;
+        if !map {
+            return N::Val(next);
+        }
+        // Keys overlap those of the base script (0..=7) only in part: leftovers of the abandoned link
+        // would show up next to, not under, the entries of the new session.
+        let k = rng.range_i(2, 9) as i32;
+        match rng.below(12) {
+            0..=6 => N::Update(k, next),
+            7..=8 => N::Remove(k),
+            9 => N::Take(rng.range(0, 3)),
+            10 => N::Drop(rng.range(0, 3)),
+            _ => N::Clear,
+        }
+    };
+    let mut second = vec![N::Linked];
+    let pre = rng.range(0, 4);
+    for _ in 0..pre {
+        second.push(ev(&mut rng));
+    }
+    if rng.chance(5, 6) {
+        // A value link always delivers a value before synced.
+        if !map && pre == 0 {
+            second.push(ev(&mut rng));
+        }
+        second.push(N::Synced);
+        for _ in 0..rng.range(0, 5) {
+            second.push(ev(&mut rng));
+        }
+    }
+    if rng.chance(1, 4) {
+        second.push(N::Unlinked);
+    }
+    let write = if map {
+        let k = rng.range_i(0, 9) as i32;
+        match rng.below(6) {
+            0..=3 => LocalOp::Upd(k, 9001),
+            4 => LocalOp::Rem(k),
+            _ => LocalOp::Clr,
+        }
+    } else {
+        LocalOp::Set(9001)
+    };
+    Some(OutFail { after_fed, settle: rng.chance(1, 2), write, second })
 }
 
 pub fn generate(seed: u64, map: bool) -> HostedScenario {
     // The same generator as the client world: legal sessions (linked, events, synced, events, unlinked,
     // relink), take / drop / clear, arbitrary orders for "no panic", the four configurations.
-    let base = dltask::generate(seed, map);
+    let mut base = dltask::generate(seed, map);
+    // The hosted runs issue their own local writes (`map_ops` below, racing with the notifications).
+    base.map_ops.clear();
     let mut rng = Rng::new(seed).sub("hosted");
     let mut map_ops = vec![];
     let mut next = 5000;
@@ -107,6 +238,7 @@ pub fn generate(seed: u64, map: bool) -> HostedScenario {
             map_ops.push((rng.range(1, 60) as u32, op));
         }
     }
+    let out_fail = generate_out_fail(seed, &base);
     HostedScenario {
         base,
         stateful: rng.chance(1, 2),
@@ -118,6 +250,7 @@ pub fn generate(seed: u64, map: bool) -> HostedScenario {
         end: *rng.pick(&[EndMode::Eof, EndMode::Eof, EndMode::HandleStop, EndMode::KeepOpen]),
         link_delay: *rng.pick(&[0u32, 0, 1, 5]),
         max_steps: 40_000,
+        out_fail,
     }
 }
 
@@ -135,6 +268,8 @@ struct ScriptFacts {
     multi_remove: u64,
     clear_dispatched: u64,
     events_suppressed: u64,
+    /// The local state the downlink holds after the last notification: number of map entries, 1 for a value.
+    state_at_end: usize,
 }
 
 fn facts(sc: &DtScenario) -> ScriptFacts {
@@ -142,6 +277,7 @@ fn facts(sc: &DtScenario) -> ScriptFacts {
     let mut linked = false;
     let mut synced = false;
     let mut map: BTreeMap<i32, i32> = BTreeMap::new();
+    let mut has_value = false;
     for n in sc.script.iter() {
         if f.terminated {
             break;
@@ -152,6 +288,7 @@ fn facts(sc: &DtScenario) -> ScriptFacts {
                     linked = true;
                     synced = false;
                     map.clear();
+                    has_value = false;
                 }
             }
             N::Synced => {
@@ -165,6 +302,8 @@ fn facts(sc: &DtScenario) -> ScriptFacts {
                 }
                 linked = false;
                 synced = false;
+                map.clear();
+                has_value = false;
             }
             ev => {
                 if !linked {
@@ -175,6 +314,7 @@ fn facts(sc: &DtScenario) -> ScriptFacts {
                     f.events_suppressed += 1;
                 }
                 match ev {
+                    N::Val(_) => has_value = true,
                     N::Update(k, v) => {
                         map.insert(*k, *v);
                     }
@@ -221,6 +361,7 @@ fn facts(sc: &DtScenario) -> ScriptFacts {
         }
     }
     f.linked_at_end = linked && !f.terminated;
+    f.state_at_end = map.len() + has_value as usize;
     f
 }
 
@@ -301,8 +442,76 @@ fn main_trace(rec: &HostedRecord) -> Vec<(u64, Cb)> {
     }
 }
 
+/// The values the value downlink wrote, in the order it wrote them. `outs` is in the order in which the
+/// decoders of the connections happened to be polled; the downlink writes to a connection only after it
+/// has given up the previous one, so its own order is by connection, then by position in the connection.
 fn value_outs(rec: &HostedRecord) -> Vec<i32> {
-    rec.outs.iter().filter_map(|(_, _, o)| if let OutOp::Set(v) = o { Some(*v) } else { None }).collect()
+    let mut outs: Vec<(u32, i32)> = rec.outs.iter().filter_map(|(_, c, o)| if let OutOp::Set(v) = o { Some((*c, *v)) } else { None }).collect();
+    outs.sort_by_key(|(c, _)| *c);
+    outs.into_iter().map(|(_, v)| v).collect()
+}
+
+fn out_op(o: &LocalOp) -> OutOp {
+    match o {
+        LocalOp::Upd(k, v) => OutOp::Upd(*k, *v),
+        LocalOp::Rem(k) => OutOp::Rem(*k),
+        LocalOp::Clr => OutOp::Clr,
+        LocalOp::Set(v) => OutOp::Set(*v),
+    }
+}
+
+/// The agent event recorded when the handle accepted the operation (`HostLifecycle::apply`).
+fn handled_ok(o: &LocalOp) -> String {
+    match o {
+        LocalOp::Upd(k, v) => format!("upd {k} {v} -> ok"),
+        LocalOp::Rem(k) => format!("rem {k} -> ok"),
+        LocalOp::Clr => "clr -> ok".to_string(),
+        LocalOp::Set(v) => format!("set {v} -> ok"),
+    }
+}
+
+struct SessionCheck {
+    violations: Vec<Violation>,
+    /// The "drop as clear" variant of the script (classification only) and whether the trace follows it.
+    quirk: Option<DtScenario>,
+    quirk_explains: bool,
+}
+
+/// The hosted callbacks `trace` against the reference fold of `sc` (from an empty state), with the comparison
+/// of the client world (literally `dltask::check`). `sig_suffix` distinguishes the session after a write failure.
+fn check_session(rec: &HostedRecord, sc: &DtScenario, trace: &[(u64, Cb)], fed: usize, out_frames: Vec<i32>, tag: &str, sig_suffix: &str) -> SessionCheck {
+    let record = |sc: &DtScenario| dltask::Record {
+        sc: sc.clone(),
+        trace: trace.to_vec(),
+        result: Some("Ok".to_string()),
+        out_frames: out_frames.clone(),
+        steps: rec.steps,
+        decisions: rec.decisions,
+        panics: vec![],
+        step_limit: false,
+        fed,
+        out_bodies: vec![],
+        map_ops_issued: vec![],
+    };
+    let plain = dltask::check(&record(sc));
+    // Classification only: does the trace equal the reference of the script in which the drops that empty
+    // the map are clears (the baseline behaviour of MapDlState::drop)?
+    let quirk = if plain.is_empty() { None } else { drop_as_clear_script(sc) };
+    let quirk_explains = quirk.as_ref().map(|q| dltask::check(&record(q)).is_empty()).unwrap_or(false);
+    let mut violations = vec![];
+    for v in plain {
+        if quirk_explains {
+            violations.push(Violation::new("C08", "C08.hosted.callbacks", &format!("drop_as_clear{sig_suffix}"), format!("{tag} {} -- the whole hosted trace equals the reference of the script in which every drop(n) with n >= size is a clear: the hosted downlink reports such a drop as on_clear (also on an empty map) instead of on_remove per entry", v.detail)));
+            break;
+        }
+        violations.push(Violation {
+            property: v.property,
+            rule: v.rule.replacen("C08.", "C08.hosted.", 1),
+            sig: format!("{}{sig_suffix}", v.sig.replacen("C08.", "C08.hosted.", 1)),
+            detail: format!("{tag} {}", v.detail),
+        });
+    }
+    SessionCheck { violations, quirk, quirk_explains }
 }
 
 fn check(rec: &HostedRecord, client: Option<&dltask::Record>) -> Vec<Violation> {
@@ -334,43 +543,58 @@ fn check(rec: &HostedRecord, client: Option<&dltask::Record>) -> Vec<Violation> 
     if !sc.legal {
         return out;
     }
-    let f = facts(sc);
-    let main = main_trace(rec);
-    // (a) The reference fold, with the comparison of the client world (dltask::check).
-    let as_client = dltask::Record {
-        sc: sc.clone(),
-        trace: main.clone(),
-        result: Some("Ok".to_string()),
-        out_frames: value_outs(rec),
-        steps: rec.steps,
-        decisions: rec.decisions,
-        panics: vec![],
-        step_limit: false,
-        fed: rec.fed_at_main_idle,
+    let fault = rec.sc.out_fail_at();
+    // What the callbacks are compared with: the whole base script or, when the output channel was made to
+    // fail (N6), the part of it sent before the fault (callbacks up to the reconnection) and then the
+    // session served on the new connection (callbacks after it), each with the reference fold started
+    // from an empty state.
+    let mut first_sc = rec.sc.first_part();
+    if let Some((OutFail { write: LocalOp::Set(v), .. }, _)) = fault {
+        // The write of the fault is the last local set of a value downlink (dltask::check: sets come out in order).
+        first_sc.local_sets.push((u32::MAX, *v));
+    }
+    let second_sc = rec.sc.second_part();
+    let sc = &first_sc;
+    let all = main_trace(rec);
+    let (main, after): (Vec<(u64, Cb)>, Vec<(u64, Cb)>) = match (fault, rec.recon_after_fail) {
+        (Some(_), Some((_, at))) => all.into_iter().partition(|(s, _)| *s <= at),
+        _ => (all, vec![]),
     };
-    let plain = dltask::check(&as_client);
-    // Classification only: does the trace equal the reference of the script in which the drops that empty
-    // the map are clears (the baseline behaviour of MapDlState::drop)?
-    let quirk = if plain.is_empty() { None } else { drop_as_clear_script(sc) };
-    let quirk_explains = quirk.as_ref().map(|q| dltask::check(&dltask::Record { sc: q.clone(), trace: main.clone(), result: Some("Ok".to_string()), out_frames: value_outs(rec), steps: rec.steps, decisions: rec.decisions, panics: vec![], step_limit: false, fed: rec.fed_at_main_idle }).is_empty()).unwrap_or(false);
-    for v in plain {
-        let tag = format!("[hosted, stateful={} btree={} reconnect={}]", rec.sc.stateful, rec.sc.btree, rec.sc.reconnect);
-        if quirk_explains {
-            out.push(Violation::new("C08", "C08.hosted.callbacks", "drop_as_clear", format!("{tag} {} -- the whole hosted trace equals the reference of the script in which every drop(n) with n >= size is a clear: the hosted downlink reports such a drop as on_clear (also on an empty map) instead of on_remove per entry", v.detail)));
-            break;
+    // Facts about the script the downlink saw last (what the end of the run is judged by).
+    let f = match (&second_sc, rec.recon_after_fail) {
+        (Some(s2), Some(_)) => facts(s2),
+        _ => facts(sc),
+    };
+    let tag = format!("[hosted, stateful={} btree={} reconnect={}]", rec.sc.stateful, rec.sc.btree, rec.sc.reconnect);
+    // (a) The reference fold, with the comparison of the client world (dltask::check). A racing fault loses
+    // the notifications still in the abandoned channel: only a prefix can be demanded (`fed` never equals
+    // the script length, which is how dltask::check is told not to ask for the missing callbacks).
+    let racing = fault.map(|(of, _)| !of.settle).unwrap_or(false);
+    let first = check_session(rec, sc, &main, if racing { usize::MAX } else { rec.fed_at_main_idle }, value_outs(rec), &tag, "");
+    let (quirk, quirk_explains) = (first.quirk, first.quirk_explains);
+    out.extend(first.violations);
+    if let (Some((of, at)), Some(s2)) = (fault, &second_sc) {
+        if rec.recon_after_fail.is_some() {
+            let tag2 = format!("{tag} [session after the write failure; fault after {at} notifications, settle={}, local state then: {} entries]", of.settle, facts(sc).state_at_end);
+            out.extend(check_session(rec, s2, &after, rec.fed2_at_main_idle, vec![], &tag2, ":after_write_failure").violations);
+        } else {
+            // A reconnection is demanded only if the fault took place as drawn: the downlink was connected, the
+            // peer got to the fault point and the handle accepted the local write issued after the reader was dropped.
+            let write_accepted = rec.out_fail_step.map(|fs| rec.events.iter().any(|(s, e)| *s > fs && *e == handled_ok(&of.write))).unwrap_or(false);
+            if rec.connections > 0 && rec.fed_at_main_idle >= at && write_accepted {
+                out.push(Violation::new("C08", "C08.hosted.no_reconnect_after_write_failure", fr, format!("{tag} the link peer dropped the reader of the output channel after {at} notifications and {:?} was issued through the handle afterwards, but the agent never obtained a new connection for the downlink (link requests {}, connections {}, refused {})", of.write, rec.link_requests, rec.connections, rec.refused_requests)));
+            }
         }
-        out.push(Violation {
-            property: v.property,
-            rule: v.rule.replacen("C08.", "C08.hosted.", 1),
-            sig: v.sig.replacen("C08.", "C08.hosted.", 1),
-            detail: format!("{tag} {}", v.detail),
-        });
     }
     // Liveness: the system went idle with every notification consumed (unless the downlink terminated).
     if rec.connections == 0 {
         out.push(Violation::new("C08", "C08.hosted.never_opened", "", format!("the agent never obtained a connection for the downlink (link requests {})", rec.link_requests)));
     } else if !f.terminated && rec.fed_at_main_idle < sc.script.len() {
         out.push(Violation::new("C08", "C08.hosted.stuck", fr, format!("the system went idle after {} of {} notifications were accepted by the hosted downlink (write failed: {})", rec.fed_at_main_idle, sc.script.len(), rec.feeder_write_failed)));
+    } else if let (Some(s2), Some(_)) = (&second_sc, rec.recon_after_fail) {
+        if !f.terminated && rec.fed2_at_main_idle < s2.script.len() {
+            out.push(Violation::new("C08", "C08.hosted.stuck", &format!("{fr}:after_write_failure"), format!("the system went idle after {} of {} notifications of the session after the write failure were accepted by the hosted downlink (write failed: {})", rec.fed2_at_main_idle, s2.script.len(), rec.feeder_write_failed)));
+        }
     }
     if let Some((_, e)) = rec.events.iter().find(|(s, e)| e == "on_failed" && rec.stop_step.map(|st| *s <= st).unwrap_or(true)) {
         out.push(Violation::new("C08", "C08.hosted.on_failed", fr, format!("{e} was called although every frame of the link was well formed")));
@@ -387,23 +611,15 @@ fn check(rec: &HostedRecord, client: Option<&dltask::Record>) -> Vec<Violation> 
     }
     // Commands written back to the link: only what the handlers issued.
     if sc.map {
-        let issued: Vec<OutOp> = rec
-            .sc
-            .map_ops
-            .iter()
-            .map(|(_, o)| match o {
-                LocalOp::Upd(k, v) => OutOp::Upd(*k, *v),
-                LocalOp::Rem(k) => OutOp::Rem(*k),
-                LocalOp::Clr => OutOp::Clr,
-            })
-            .collect();
+        let issued: Vec<OutOp> = rec.sc.map_ops.iter().map(|(_, o)| out_op(o)).chain(fault.map(|(of, _)| out_op(&of.write))).collect();
         if let Some((_, _, o)) = rec.outs.iter().find(|(_, _, o)| !issued.contains(o)) {
             out.push(Violation::new("C08", "C08.hosted.local_op_unknown", fr, format!("the hosted downlink sent {:?} which no handler issued (issued {:?})", o, issued)));
         }
     } else if let Some((_, _, o)) = rec.outs.iter().find(|(_, _, o)| !matches!(o, OutOp::Set(_))) {
         out.push(Violation::new("C08", "C08.hosted.local_op_unknown", fr, format!("the hosted value downlink sent {:?}", o)));
     }
-    // (b) Equivalence with the client implementation on the same scenario.
+    // (b) Equivalence with the client implementation on the same scenario (N6: on the part of it sent before
+    // the fault, with the hosted callbacks made before the reconnection; a racing fault leaves a prefix).
     if let Some(cl) = client {
         if !cl.step_limit && cl.panics.is_empty() {
             let c: Vec<&Cb> = cl.trace.iter().map(|(_, c)| c).collect();
@@ -447,7 +663,7 @@ fn check(rec: &HostedRecord, client: Option<&dltask::Record>) -> Vec<Violation> 
                     ),
                 ));
             }
-            if diff.is_none() && c.len() != h.len() {
+            if diff.is_none() && c.len() != h.len() && !(racing && h.len() < c.len()) {
                 diff = Some((n, if c.len() > h.len() { format!("hosted_missing_{}", cb_name(c[n])) } else { format!("hosted_extra_{}", cb_name(h[n])) }));
             }
             // Classification: the first difference is exactly where the reference and the "drop as clear"
@@ -511,6 +727,9 @@ fn build_log(rec: &HostedRecord, client: Option<&dltask::Record>, keep: bool) ->
         log.rec(s, k, &d);
     }
     log.rec(rec.steps, "result", &format!("fed={} connections={} requests={} refused={} end={:?} step_limit={}", rec.fed, rec.connections, rec.link_requests, rec.refused_requests, rec.agent_end, rec.step_limit));
+    if rec.sc.out_fail_at().is_some() {
+        log.rec(rec.steps, "result-out-fail", &format!("fired={:?} reconnected={:?} fed_after={}", rec.out_fail_step, rec.recon_after_fail, rec.fed2));
+    }
     if let Some(cl) = client {
         for (s, c) in cl.trace.iter() {
             log.rec(*s, "client-cb", &format!("{:?}", c));
@@ -540,12 +759,17 @@ impl World for HostedWorld {
         };
         // The same base scenario on the client implementation (legal scripts only: the illegal ones are
         // explored for panics by the client world itself).
-        let client = if sc.base.legal { Some(block_on_sim(sc.base.tokio_seed, dltask::run(&sc.base))) } else { None };
+        // N6: the client has no output-channel fault; it gets what is sent before the fault point.
+        let first = sc.first_part();
+        let client = if sc.base.legal { Some(block_on_sim(sc.base.tokio_seed, dltask::run(&first))) } else { None };
         let rec = block_on_sim(sc.base.tokio_seed, run::run(&sc, keep_log));
         let log = build_log(&rec, client.as_ref(), keep_log);
         let violations = check(&rec, client.as_ref());
         let b = &sc.base;
-        let f = facts(b);
+        // Probes count what was sent: the part of the script before the fault, if there is one.
+        let f = facts(&first);
+        let second = sc.second_part().filter(|_| rec.recon_after_fail.is_some());
+        let linked_at_end = second.as_ref().map(|s| facts(s).linked_at_end).unwrap_or(f.linked_at_end);
         let mut out = Outcome {
             violations,
             log_hash: log.hash(),
@@ -558,7 +782,8 @@ impl World for HostedWorld {
         let main = main_trace(&rec);
         out.count("notifications_fed", rec.fed as u64);
         out.count("callbacks", rec.trace.len() as u64);
-        out.count("callbacks_compared_with_client", client.as_ref().map(|_| main.len()).unwrap_or(0) as u64);
+        let before_reconnection = rec.recon_after_fail.map(|(_, s)| main.iter().filter(|(t, _)| *t <= s).count()).unwrap_or(main.len());
+        out.count("callbacks_compared_with_client", client.as_ref().map(|_| before_reconnection).unwrap_or(0) as u64);
         out.count("equiv_runs", client.is_some() as u64);
         out.count("legal_scripts", b.legal as u64);
         out.count("illegal_scripts", !b.legal as u64);
@@ -571,7 +796,7 @@ impl World for HostedWorld {
         out.count("connections", rec.connections as u64);
         out.count("reconnects_accepted", rec.connections.saturating_sub(1) as u64);
         out.count("reconnects_refused", rec.refused_requests as u64);
-        out.count("local_ops_issued", (if b.map { sc.map_ops.len() } else { b.local_sets.len() }) as u64);
+        out.count("local_ops_issued", ((if b.map { sc.map_ops.len() } else { b.local_sets.len() }) + sc.out_fail_at().is_some() as usize) as u64);
         out.count("local_ops_written_to_link", rec.outs.len() as u64);
         out.count("local_ops_rejected_by_handle", rec.events.iter().filter(|(_, e)| e.ends_with("-> err")).count() as u64);
         out.count("end.eof", (sc.end == EndMode::Eof) as u64);
@@ -579,11 +804,26 @@ impl World for HostedWorld {
         out.count("end.keep_open", (sc.end == EndMode::KeepOpen) as u64);
         let post_unlinked = rec.end_step.map(|e| rec.trace.iter().filter(|(s, c)| *s > e && rec.stop_step.map(|st| *s <= st).unwrap_or(true) && matches!(c, Cb::Unlinked)).count()).unwrap_or(0);
         out.count("synthetic_unlinked_after_end", post_unlinked as u64);
-        out.count("synthetic_unlinked_missing", (b.legal && f.linked_at_end && sc.end != EndMode::KeepOpen && rec.end_step.is_some() && post_unlinked == 0) as u64);
+        out.count("synthetic_unlinked_missing", (b.legal && linked_at_end && sc.end != EndMode::KeepOpen && rec.end_step.is_some() && post_unlinked == 0) as u64);
         out.count("pings_handled", rec.events.iter().filter(|(_, e)| e.starts_with("ping")).count() as u64);
         out.count("agent_ended_ok", rec.agent_end.as_ref().map(|(_, r)| r == "Ok").unwrap_or(false) as u64);
         out.count("agent_stop_timeout", rec.agent_stop_timeout as u64);
         out.count("step_limit_hit", rec.step_limit as u64);
+        if let Some((of, at)) = sc.out_fail_at() {
+            let fired = rec.out_fail_step.is_some() && rec.connections > 0;
+            out.count("fault.output_channel_failed", fired as u64);
+            out.count("fault.output_channel_failed.settled", (fired && of.settle) as u64);
+            out.count("fault.output_channel_failed.racing", (fired && !of.settle) as u64);
+            out.count("reconnected_after_write_failure", rec.recon_after_fail.is_some() as u64);
+            out.count("notifications_fed_after_write_failure", rec.fed2 as u64);
+            out.count("callbacks_after_write_failure", rec.recon_after_fail.map(|(_, s)| main.iter().filter(|(t, _)| *t > s).count()).unwrap_or(0) as u64);
+            // The runs in which an unclean reconnection would be visible: the reference fold holds local state
+            // at the fault point (a settled fault: the downlink holds exactly that) / the link was up then.
+            out.count("probe.write_failure_with_local_state", (fired && rec.fed >= at && f.state_at_end > 0) as u64);
+            out.count("probe.write_failure_while_linked", (fired && rec.fed >= at && f.linked_at_end) as u64);
+            out.count("probe.write_failure_while_unlinked", (fired && rec.fed >= at && !f.linked_at_end) as u64);
+            out.count("probe.local_ops_written_after_reconnect", rec.recon_after_fail.map(|(c, _)| rec.outs.iter().filter(|(_, conn, _)| *conn >= c).count()).unwrap_or(0) as u64);
+        }
         out.count("downlink_terminated_by_unlinked", (b.legal && f.terminated) as u64);
         out.count("probe.events_before_sync", b.script.iter().take_while(|n| !matches!(n, N::Synced)).filter(|n| !matches!(n, N::Linked | N::Unlinked)).count() as u64);
         out.count("probe.take_drop", b.script.iter().filter(|n| matches!(n, N::Take(_) | N::Drop(_))).count() as u64);
@@ -603,7 +843,8 @@ impl World for HostedWorld {
                 || !sc.map_ops.is_empty()
                 || b.script.iter().filter(|n| matches!(n, N::Linked)).count() > 1
                 || !b.events_when_not_synced
-                || rec.connections > 1);
+                || rec.connections > 1)
+            || rec.recon_after_fail.is_some();
         out
     }
 
@@ -616,6 +857,38 @@ impl World for HostedWorld {
             if let Ok(b) = serde_json::from_value::<DtScenario>(cand) {
                 let mut c = sc.clone();
                 c.base = b;
+                out.push(c);
+            }
+        }
+        // The output-channel fault: without it, then with a settled fault point, then with a shorter second session.
+        if let Some(of) = &sc.out_fail {
+            let mut c = sc.clone();
+            c.out_fail = None;
+            out.push(c);
+            if let Some((_, at)) = sc.out_fail_at() {
+                // What lies behind the fault point is never sent.
+                if at < sc.base.script.len() {
+                    let mut c = sc.clone();
+                    c.base.script.truncate(at);
+                    out.push(c);
+                }
+            }
+            if !of.settle {
+                let mut c = sc.clone();
+                c.out_fail.as_mut().unwrap().settle = true;
+                out.push(c);
+            }
+            for i in 0..of.second.len() {
+                // As for the base script: the markers stay, so the session stays legal.
+                if !matches!(of.second[i], N::Linked | N::Synced | N::Unlinked) {
+                    let mut c = sc.clone();
+                    c.out_fail.as_mut().unwrap().second.remove(i);
+                    out.push(c);
+                }
+            }
+            if of.second.last() == Some(&N::Unlinked) {
+                let mut c = sc.clone();
+                c.out_fail.as_mut().unwrap().second.pop();
                 out.push(c);
             }
         }
@@ -675,8 +948,8 @@ impl World for HostedWorld {
     }
 
     fn rule(&self) -> String {
-        "one run = one seeded notification script of the client world's generator (legal sessions linked/events/synced/events/unlinked/relink, or an arbitrary order for 'no panic'), one of the four configurations, interleaved local writes through the handle, channel capacity (whole frames or fragmented), schedule seed, executed on the client implementation AND on an agent-hosted downlink (stateless or stateful builder, opened in on_start or by a command, HashMap or BTreeMap backing, sessions on one connection or one connection per session, link ended by EOF / handle.stop() / kept open); \
-         non-trivial = more than three notifications and at least one of: fragmented delivery, take/drop/clear, local writes, a relink, events suppressed before sync, a reconnect; distinct = distinct hash of the whole history (hosted callbacks, agent events, commands written to the link, harness marks, client callbacks)".into()
+        "one run = one seeded notification script of the client world's generator (legal sessions linked/events/synced/events/unlinked/relink, or an arbitrary order for 'no panic'), one of the four configurations, interleaved local writes through the handle, channel capacity (whole frames or fragmented), schedule seed, executed on the client implementation AND on an agent-hosted downlink (stateless or stateful builder, opened in on_start or by a command, HashMap or BTreeMap backing, sessions on one connection or one connection per session, link ended by EOF / handle.stop() / kept open), in a minority of the legal runs that do not terminate on unlinked with the fault 'the link peer drops the reader of the output channel of the downlink at a drawn point of the script (when idle, or racing with the notifications in flight), a local write is issued afterwards, the peer serves a fresh session on the connection the agent then asks for'; \
+         non-trivial = more than three notifications and at least one of: fragmented delivery, take/drop/clear, local writes, a relink, events suppressed before sync, a reconnect, or a reconnection after a write failure; distinct = distinct hash of the whole history (hosted callbacks, agent events, commands written to the link, harness marks, client callbacks)".into()
     }
 
     fn components(&self) -> Json {
@@ -685,13 +958,13 @@ impl World for HostedWorld {
                 "swimos_agent AgentModel + derive(AgentLaneModel) agent HostAgent with #[lifecycle] handlers",
                 "swimos_runtime AgentRouteTask::run_agent (agent runtime, command lane IO)",
                 "HandlerContext::{value_downlink_builder, map_downlink_builder, map_downlink_builder_for} stateless and stateful builders, OpenValueDownlinkAction / OpenMapDownlinkAction",
-                "agent_model::downlink::hosted::{HostedValueDownlink, HostedMapDownlink, MapDlState, ValueWriteStream, MapWriteStream} incl. reconnect through the agent task",
+                "agent_model::downlink::hosted::{HostedValueDownlink, HostedMapDownlink, MapDlState, ValueWriteStream, MapWriteStream} incl. reconnect through the agent task (after end of stream and after DownlinkChannelError::WriteFailed: HostedDownlinkEvent::WriterFailed -> reconnect -> DownlinkChannel::connect)",
                 "ValueDownlinkHandle::{set, stop}, MapDownlinkHandle::{update, remove, clear, stop}",
                 "swimos_downlink::DownlinkTask over value_downlink / map_downlink models (the client side of the equivalence)",
                 "swimos_agent_protocol downlink notification / map message / map operation codecs", "swimos_byte_channel"
             ],
             "stub": ["downlink runtime (link server answering LinkRequest::Downlink, scripted notification feeder, output decoder)", "remote peer sending trigger commands", "executor"],
-            "not_covered": ["event downlinks (hosted/event) are not driven", "decode errors on the link (on_failed path) are not injected", "the client world does not issue local map operations, so local map writes are exercised on the hosted side only"]
+            "not_covered": ["event downlinks (hosted/event) are not driven", "decode errors on the link (on_failed path) are not injected", "a write failure of a downlink that terminates on unlinked (the agent drops the downlink) is not injected", "a failed reconnection after a write failure (retry strategy) is not injected", "the client world does not issue local map operations, so local map writes are exercised on the hosted side only"]
         })
     }
 }
